@@ -548,24 +548,62 @@ func domByBoolEdge(fn *ssa.Function, b *ssa.BasicBlock, want bool, pred func(ssa
 		if !ok {
 			continue
 		}
-		cond := ifi.Cond
-		w := want
-		if u, ok := cond.(*ssa.UnOp); ok && u.Op == token.NOT {
-			cond = u.X
-			w = !w
-		}
-		if !pred(cond) {
-			continue
-		}
-		succ := a.Succs[0]
-		if !w {
-			succ = a.Succs[1]
-		}
-		if len(succ.Preds) == 1 && succ.Dominates(b) {
-			return true
+		for k, succ := range a.Succs {
+			if len(succ.Preds) != 1 || !succ.Dominates(b) {
+				continue
+			}
+			// what the edge taken says: the test itself, and — when the test is the value of `x && y`
+			// / `x || y` computed outside an if (a switch case, an assignment) — its operands
+			for _, f := range condFactsOnEdge(ifi.Cond, k == 0, 0) {
+				if f.truth == want && pred(f.v) {
+					return true
+				}
+			}
 		}
 	}
 	return false
+}
+
+type condFact struct {
+	v     ssa.Value
+	truth bool
+}
+
+// condFactsOnEdge: the boolean values known (with their truth) when cond evaluates to truth: cond
+// itself, the operand of a negation, and through the phi go/ssa builds for a short-circuit
+// expression used as a value: `x && y` is phi[false, ..., y] — true means the last operand was
+// reached and is true, which in turn means every earlier operand was true (the block that
+// evaluates y is entered only on their true edges); dually for `||`.
+func condFactsOnEdge(cond ssa.Value, truth bool, depth int) []condFact {
+	out := []condFact{{cond, truth}}
+	if depth > 4 {
+		return out
+	}
+	if u, ok := cond.(*ssa.UnOp); ok && u.Op == token.NOT {
+		return append(out, condFactsOnEdge(u.X, !truth, depth+1)...)
+	}
+	phi, ok := cond.(*ssa.Phi)
+	if !ok || (phi.Comment != "&&" && phi.Comment != "||") {
+		return out
+	}
+	isAnd := phi.Comment == "&&"
+	if isAnd != truth {
+		return out // `x && y` false / `x || y` true: some operand decided it, not known which
+	}
+	// all operands have the value `truth`
+	for i, e := range phi.Edges {
+		p := phi.Block().Preds[i]
+		if k, isC := e.(*ssa.Const); isC && k.Value != nil {
+			// the short-circuit edge: comes from the block that tested an earlier operand; on the path
+			// through the last operand that operand had the other outcome
+			if ifi, ok := p.Instrs[len(p.Instrs)-1].(*ssa.If); ok {
+				out = append(out, condFactsOnEdge(ifi.Cond, truth, depth+1)...)
+			}
+			continue
+		}
+		out = append(out, condFactsOnEdge(e, truth, depth+1)...)
+	}
+	return out
 }
 
 // ---- R5 -------------------------------------------------------------------------------
